@@ -196,3 +196,44 @@ def run_nbsym(prog, rule="R-NBSYM"):
         else:
             res.sample({"function": fn, "statuses": names, "verdict": "same effects; differ from %s" % list(basic)[0]})
     return res
+
+
+def run_keepcache(prog, prefix="mpq_", rule="R-KEEPCACHE"):
+    """QSdelete_rows may keep the cached solution (documented waiver of R-INVAL).  That is sound exactly when every deleted row has a
+    zero dual value in the cached solution - then x stays feasible and (x, pi restricted) stays optimal.  ILLlib_delrows decides it by
+    testing C->pi[j]; the test must reject BOTH signs (a one-sided `0 < pi` keeps the stale solution for a binding row whose dual value
+    is negative: every 'L' row of a minimisation, e.g. after QSload_basis replaced the basis the status test relies on).  The three
+    outcomes of the comparison are enumerated through the condition tree (as for the gates of R-CERTDEP)."""
+    from .certdep import eval_cond
+    from ..core import walk, fields_of, apath, show, short_loc, strip
+    from ..result import RuleResult, Violation
+    res = RuleResult(rule, "the test of the cached dual value that lets ILLlib_delrows keep the cached solution rejects both signs")
+    f = prog.require_fn(prefix + "ILLlib_delrows")
+    n = 0
+    for bid in sorted(f.live):
+        b = f.blocks[bid]
+        c = b.get("c")
+        if c is None or b.get("t") in ("ConditionalOperator", "BinaryConditionalOperator", "SwitchStmt"):
+            continue
+        reads_pi = False
+        for nd in walk(c):
+            if nd[0] == "i":
+                fl = fields_of(apath(nd[1])[2])
+                if fl and fl[-1].endswith("ILLlp_cache::pi"):
+                    reads_pi = True
+        if not reads_pi:
+            continue
+        n += 1
+        res.obligations += 1
+        res.nontrivial += 1
+        tv = tuple(eval_cond(c, r) for r in (-1, 0, 1))
+        if None in tv:
+            raise AnalysisBroken("R-KEEPCACHE: cannot evaluate the dual-value test %s" % show(c)[:80])
+        if bool(tv[0]) == bool(tv[2]) and bool(tv[0]) != bool(tv[1]):
+            res.sample({"site": short_loc(b.get("tloc") or f.loc), "test": show(c)[:70], "verdict": "distinguishes zero from both signs"})
+        else:
+            res.violations.append(Violation(rule, "ILLlib_delrows|one-sided test of the cached dual value", f.name, short_loc(b.get("tloc") or f.loc),
+                                            "%s treats the outcomes (<, =, >) as %s: a deleted row whose cached dual value has the other sign is taken for a "
+                                            "row with zero dual value and the cached solution is kept although it is no longer optimal" % (show(c)[:90], tv)))
+    res.floor("tests of the cached dual value in ILLlib_delrows", n, 1)
+    return res
